@@ -51,58 +51,64 @@ def gen_program(rng, names=None):
         return v
 
     def refs(aux, frames_here, framers):
+        """each reference: ("put", written path, relation) with relation one of
+        None | ("root",) | ("me",) | ("framer", o) | ("frame", o, fr) | ("actor", o, fm)
+        o = None | "me" | "main" | ("N", entity);  fr = None | ("framer", o);
+        fm = None | ("frame", o, fr)      -- or ("do", via inode, path)"""
         out = []
-        styles = ["abs", "root", "me", "ofme", "offramer", "offramerme", "offramername", "offrame", "offrameme",
-                  "offramename", "offramenameframer", "ofactor", "inlineframer", "inlineframe", "do", "do2",
-                  "offrameroot", "lit"]
+        F = lambda: ("N", rng.choice(framers))
+        A = lambda: ("N", rng.choice(frames_here))
+        styles = ["abs", "root", "lit", "me", "ofme", "offramer", "offramerme", "offramername", "offrame",
+                  "offrameme", "offramename", "offramenameframer", "offrameofframer", "offramemeofframerme",
+                  "ofactor", "ofactorme", "ofactorofframe", "inlineframer", "inlineframe", "inlineactor",
+                  "absofframer", "absofframe", "do", "do2"]
         if aux:
-            styles += ["offramermain", "offramemain", "inlinemain"]
-        for st in rng.sample(styles, rng.randint(3, 7)):
+            styles += ["offramermain", "offramemain", "offramemainofframer", "offramemainofframermain",
+                       "offrameofframermain", "inlinemain", "inlineframemain", "inlineframermainframemain",
+                       "ofactorofframemain", "absofframemain", "offramemain", "offramermain", "inlineframemain"]
+        for st in rng.sample(styles, rng.randint(4, 9)):
             m = marker()
             lit = rng.choice(LITS)
-            if st == "abs":
-                out.append(("put", ".%s.%s" % (lit, m), ""))
-            elif st == "root":
-                out.append(("put", "%s.%s" % (lit, m), ""))
-            elif st == "lit":
-                out.append(("put", "%s" % m, " of root"))
-            elif st == "me":
-                out.append(("put", "me.%s" % m, ""))
-            elif st == "ofme":
-                out.append(("put", m, " of me"))
-            elif st == "offramer":
-                out.append(("put", m, " of framer"))
-            elif st == "offramerme":
-                out.append(("put", "%s.%s" % (lit, m), " of framer me"))
-            elif st == "offramermain":
-                out.append(("put", m, " of framer main"))
-            elif st == "offramername":
-                out.append(("put", m, (" of framer ", ("N", rng.choice(framers)))))
-            elif st == "offrame":
-                out.append(("put", m, " of frame"))
-            elif st == "offrameme":
-                out.append(("put", m, " of frame me"))
-            elif st == "offramemain":
-                out.append(("put", m, " of frame main"))
-            elif st == "offramename":
-                out.append(("put", m, (" of frame ", ("N", rng.choice(frames_here)))))
-            elif st == "offramenameframer":
-                out.append(("put", m, (" of frame ", ("N", rng.choice(frames_here)), " of framer ",
-                                       ("N", rng.choice(framers)))))
-            elif st == "offrameroot":
-                out.append(("put", m, " of frame of root") if False else ("put", m, " of frame"))
-            elif st == "ofactor":
-                out.append(("put", m, " of actor"))
-            elif st == "inlineframer":
-                out.append(("put", "framer.me.%s" % m, ""))
-            elif st == "inlinemain":
-                out.append(("put", "framer.main.%s" % m, ""))
-            elif st == "inlineframe":
-                out.append(("put", "frame.me.%s" % m, ""))
-            elif st == "do":
+            T = {
+                "abs": (".%s.%s" % (lit, m), None),
+                "root": ("%s.%s" % (lit, m), None),
+                "lit": (m, ("root",)),
+                "me": ("me.%s" % m, None),
+                "ofme": (m, ("me",)),
+                "offramer": (m, ("framer", None)),
+                "offramerme": ("%s.%s" % (lit, m), ("framer", "me")),
+                "offramermain": (m, ("framer", "main")),
+                "offramername": (m, ("framer", F())),
+                "offrame": (m, ("frame", None, None)),
+                "offrameme": (m, ("frame", "me", None)),
+                "offramemain": (m, ("frame", "main", None)),
+                "offramename": (m, ("frame", A(), None)),
+                "offramenameframer": (m, ("frame", A(), ("framer", F()))),
+                "offrameofframer": (m, ("frame", None, ("framer", None))),
+                "offramemeofframerme": ("%s.%s" % (lit, m), ("frame", "me", ("framer", "me"))),
+                "offramemainofframer": (m, ("frame", "main", ("framer", None))),
+                "offramemainofframermain": (m, ("frame", "main", ("framer", "main"))),
+                "offrameofframermain": (m, ("frame", None, ("framer", "main"))),
+                "ofactor": (m, ("actor", None, None)),
+                "ofactorme": (m, ("actor", "me", None)),
+                "ofactorofframe": (m, ("actor", None, ("frame", A(), None))),
+                "ofactorofframemain": (m, ("actor", None, ("frame", "main", None))),
+                "inlineframer": ("framer.me.%s" % m, None),
+                "inlinemain": ("framer.main.%s" % m, None),
+                "inlineframe": ("frame.me.%s" % m, None),
+                "inlineframemain": ("frame.main.%s" % m, None),
+                "inlineframermainframemain": ("framer.main.frame.main.%s" % m, None),
+                "inlineactor": ("actor.me.%s" % m, None),
+                "absofframer": (".%s.%s" % (lit, m), ("framer", None)),
+                "absofframe": (".%s.%s" % (lit, m), ("frame", None, None)),
+                "absofframemain": (".%s.%s" % (lit, m), ("frame", "main", None)),
+            }
+            if st == "do":
                 out.append(("do", via(), m))
             elif st == "do2":
                 out.append(("do", via(), "me." + m))
+            else:
+                out.append(("put", T[st][0], T[st][1]))
         return out
 
     framers = ["F0", "M0", "M1"]
@@ -140,10 +146,25 @@ def render(spec, names):
     def nm(x):
         return names[x]
 
+    def oname(o):
+        if o is None:
+            return ""
+        if isinstance(o, tuple):
+            return " " + nm(o[1])
+        return " " + o
+
     def rel(r):
-        if isinstance(r, str):
-            return r
-        return "".join(nm(x[1]) if isinstance(x, tuple) else x for x in r)
+        if r is None:
+            return ""
+        if r[0] in ("root", "me"):
+            return " of " + r[0]
+        if r[0] == "framer":
+            return " of framer" + oname(r[1])
+        if r[0] == "frame":
+            return " of frame" + oname(r[1]) + (rel(r[2]) if r[2] else "")
+        if r[0] == "actor":
+            return " of actor" + oname(r[1]) + (rel(r[2]) if r[2] else "")
+        raise ValueError(r)
 
     for fr in spec["framers"]:
         head = "framer %s be %s" % (nm(fr["name"]), fr["kind"])
@@ -314,3 +335,64 @@ def rename_segment(seg, old, new):
 
 def rename_path(p, old, new):
     return ".".join(rename_segment(s, old, new) for s in p.split("."))
+
+
+# ---------------------------------------------------------------------------------------------
+# the Coq terms of a written reference (RelModel.v)
+# ---------------------------------------------------------------------------------------------
+
+def c_fname(I, names, o):
+    if o is None:
+        return "None"
+    if o == "me":
+        return "(Some FMe)"
+    if o == "main":
+        return "(Some FMain)"
+    return "(Some (FName %d))" % I(names[o[1]])
+
+
+def c_relation(I, names, r):
+    if r is None:
+        return "RelNone"
+    if r[0] == "root":
+        return "RelRoot"
+    if r[0] == "me":
+        return "RelMe"
+    if r[0] == "framer":
+        return "(RelFramer %s)" % c_fname(I, names, r[1])
+    if r[0] == "frame":
+        fr = "None" if r[2] is None else "(Some %s)" % c_fname(I, names, r[2][1])
+        return "(RelFrame %s %s)" % (c_fname(I, names, r[1]), fr)
+    if r[0] == "actor":
+        if r[2] is None:
+            fm = "None"
+        else:
+            fr = "None" if r[2][2] is None else "(Some %s)" % c_fname(I, names, r[2][2][1])
+            fm = "(Some (%s, %s))" % (c_fname(I, names, r[2][1]), fr)
+        return "(RelActor %s %s)" % (c_fname(I, names, r[1]), fm)
+    raise ValueError(r)
+
+
+def put_refs(spec):
+    """marker -> (written path, relation) of every `put` reference of the program"""
+    out = {}
+    for fr in spec["framers"]:
+        for f in fr["frames"]:
+            for r in f["refs"]:
+                if r[0] == "put":
+                    out[r[1].split(".")[-1]] = (r[1], r[2])
+    return out
+
+
+def poke_destinations(builder):
+    """marker -> (act, destination share name) for every resolved `put` act (clones included;
+    unresolved moot originals skipped)"""
+    from ioflo.base import storing
+    out = {}
+    for act in all_acts(builder):
+        if isinstance(act.frame, str) or type(act.actor).__name__ != "PokeDirect":
+            continue
+        d = act.parms.get("destination") if act.parms else None
+        if isinstance(d, storing.Share):
+            out.setdefault(d.name.split(".")[-1], []).append((act, d.name))
+    return out
